@@ -548,8 +548,11 @@ Lemma cds_views_example :
   cds_datetime_us {| cdays := 4382; cms := 1000 |} = -86399000000.
 Proof. vm_compute. repeat split; reflexivity. Qed.
 
-(* ms_of_today adds the fractional second (in seconds) to a millisecond count: half a
-   millisecond before midnight it returns 86400000, which is not a millisecond of a day *)
-Lemma cds_ms_of_today_range_refuted :
-  exists s, fl_normal s /\ 0 < fm s /\ cds_ms_of_today s = 86400000.
-Proof. exists (rne 863999995 10000). vm_compute. repeat split; congruence. Qed.
+(* ms_of_today: always a millisecond of a day, for every double (also negative ones) *)
+Lemma cds_ms_of_today_range s : 0 <= cds_ms_of_today s < 86400000.
+Proof. unfold cds_ms_of_today, MS_PER_DAY. apply Z.mod_pos_bound. lia. Qed.
+
+Lemma cds_ms_of_today_example :
+  cds_ms_of_today (rne 863999995 10000) = 86399999 /\ cds_ms_of_today (rne 1009995 10000) = 100999 /\
+  cds_ms_of_today (rne (-1) 2) = 86399500.
+Proof. vm_compute. repeat split; reflexivity. Qed.
